@@ -428,6 +428,10 @@ def m_round(eng, x, nd=None):
         if nd is None:
             t = z3.fpRoundToIntegral(z3.RNE(), eng.to_fp(x))
             return eng.float_to_int(SymFloat(t))
+        if x.quot is not None and isinstance(x.quot[1], int) and not is_sym(nd) and isinstance(nd, int) and 0 <= nd <= 15 \
+                and 10 ** nd % x.quot[1] == 0 and eng.must(eng.and_(eng.cmp("LtE", x.quot[0], 2 ** 40), eng.cmp("GtE", x.quot[0], -(2 ** 40)))):
+            # a / k with k | 10^nd has at most nd decimals: rounding to nd decimals gives the same double back
+            return x
         raise Unsupported("round(float, ndigits) symbolic")
     if is_sym(nd):
         nd = eng.concretize_int(nd, "round ndigits")
